@@ -1098,5 +1098,23 @@ Section Store.
         end
     end.
 
+  (* Store.GetWithContext inside a request tree (the route Resolver.subQuery uses for its DS / DNSKEY
+     lookups): [bypass] = the context the cache handed down carries the shared-denial bypass marker — the OUTER
+     client sent CD=1 or an ECS option.  The marker only switches the subtree-cut rung off; the exact entry is
+     looked up under the SUB-QUERY message's own question and CD bit (Store.Lookup), the failure rung unscoped *)
+  Definition store_get_tree (s : store) (q : question) (cd bypass : bool) : outcome :=
+    match store_lookup s q cd with
+    | Some e => OHit (e_id e)
+    | None =>
+        match (if cd || bypass then None else cut_lookup s q) with
+        | Some c => OCut (c_id c)
+        | None =>
+            match failure_lookup s q cd None with
+            | Some fe => OFail (f_id fe)
+            | None => OMiss
+            end
+        end
+    end.
+
 End Store.
 
